@@ -45,6 +45,10 @@ def jobs(tier, seed):
     for seq in itertools.product(ops, repeat=n):
         if 'recv' not in seq or 'tick' not in seq: continue
         out.append(('hist.' + '-'.join(seq), 'h_hist', dict(seq=list(seq))))
+    if n == 3:
+        # a few longer histories around a power cycle (all 4-operation histories are in the thorough tier)
+        for seq in (('tick', 'off', 'on', 'recv'), ('recv', 'off', 'on', 'tick'), ('tick', 'off', 'on', 'recv', 'tick'), ('recv', 'tick', 'recv', 'tick'), ('tick', 'on', 'recv', 'tick')):
+            out.append(('hist.' + '-'.join(seq), 'h_hist', dict(seq=list(seq))))
     return out
 
 
@@ -117,7 +121,10 @@ def h_recv(ctx, k, mver, hver):
         accept = running and mver == hver
         ctx.check('old-queue-prefix-kept', len(q) >= k and all(a is b for a, b in zip(q, msgs)))
         if accept:
-            ctx.check('accepted:appended-at-tail', len(q) == k + 1, got=len(q))
+            # queued for its frame - or, which the property equally allows for a frame that has passed, discarded with a stale report
+            # (whether it has passed is a matter of the last tick, unknown in this one-step harness: the histories decide that)
+            nst = len([t for t in log.texts('warning') if 'Stale TRXD message' in t])
+            ctx.check('accepted:queued-at-tail-or-reported-stale', len(q) == k + 1 or (len(q) == k and nst == 1), got=len(q), stale_reports=nst)
             if len(q) == k + 1:
                 ctx.check('accepted:fn', eq(q[-1].fn, m.fn)); ctx.check('accepted:tn', eq(q[-1].tn, m.tn)); ctx.check('accepted:pwr', eq(q[-1].pwr, m.pwr))
                 check_seq_eq(ctx, 'accepted:burst', q[-1].burst, m.burst)
@@ -190,15 +197,23 @@ def h_hist(ctx, seq):
         trx._rx_freq = trx._tx_freq = 1
         trx.running = True
         pending = []       # model of the queue
+        last_tick = None   # frame of the last tick since power-on (None: no tick yet, nothing can have passed)
         for i, op in enumerate(seq):
             if op == 'recv':
                 m = sym_tx(ctx, T, 0, 148, prefix='op%d.' % i)
                 d = m.gen_msg()
                 trx.data_if.sock.inject(d if ctx.mode == 'sym' else bytes(d))
+                log.records.clear()
                 with ctx.no_raise('op%d.recv:no-exception' % i):
                     trx.recv_data_msg()
-                if trx.running: pending.append(m.fn)
-                ctx.check('op%d.recv:queue-length' % i, len(trx._tx_queue) == len(pending), got=len(trx._tx_queue), want=len(pending))
+                nst = len([t for t in log.texts('warning') if 'Stale TRXD message' in t])
+                if trx.running and len(trx._tx_queue) == len(pending) and nst == 1 and last_tick is not None:
+                    # discarded on arrival: only legitimate for a frame that is not ahead of the last tick of this power cycle
+                    dd = dist(m.fn, last_tick)
+                    ctx.check('op%d.recv:discarded-on-arrival=>frame-has-passed' % i, bor(eq(dd, 0), dd >= HALF))
+                else:
+                    if trx.running: pending.append(m.fn)
+                    ctx.check('op%d.recv:queue-length' % i, len(trx._tx_queue) == len(pending), got=len(trx._tx_queue), want=len(pending))
             elif op == 'tick':
                 fn = ctx.int('op%d.fn' % i, 0, HYPER - 1)
                 fwd = Fwd(); log.records.clear()
@@ -207,13 +222,14 @@ def h_hist(ctx, seq):
                     trx.clck_tick(fwd, fn)
                 if trx.running:
                     check_tick(ctx, trx, pre, fn, fwd, log, name='op%d.tick' % i)
-                    pending = [m.fn for m in trx._tx_queue]
+                    pending = [m.fn for m in trx._tx_queue]; last_tick = fn
                 else:
                     ctx.check('op%d.tick:idle' % i, not fwd.calls)
             else:
                 with ctx.no_raise('op%d.power:no-exception' % i):
                     trx.power_event_handler(op == 'on')
                 if op == 'off': pending = []
+                last_tick = None           # the clock restarts with the power cycle
                 ctx.check('op%d.power:queue' % i, len(trx._tx_queue) == len(pending))
 
 
